@@ -186,6 +186,8 @@ TUninit == /\ Is("Uninit") /\ Step
            /\ Must(Ev.wu = cfg.W /\ Ev.os = cfg.TotOut /\ Ev.is = cfg.TotIn /\ Ev.eof = 1, "all units and slots returned")
            /\ Must(Ev.live[1] = 0 /\ Ev.live[2] = 0 /\ Ev.live[3] = 0, "no buffer outlives the run")
            /\ Must(Ev.peak[1] <= cfg.TotIn /\ Ev.peak[2] <= cfg.W /\ Ev.peak[3] <= cfg.TotOut, "peak buffers within slot totals")
+           /\ Must(("heapk" \in DOMAIN Ev) => Ev.heapk <= 64 + 4 * cfg.W,
+                   "the heap is back to its size at the start of the run (nothing allocated for the run outlives it)")
            /\ rss' = Ev.rss /\ UNCHANGED <<dvars, meta, nrun>>
 
 Next == \/ TReset \/ TStart \/ TInit \/ TSrcTake \/ TSrcRel \/ TAvail \/ TEof
